@@ -23,7 +23,7 @@ def pure_transitions(beh):
     return items if items and all(k == "T" for k, _ in items) else None
 
 
-def run_chain(ctx, beh, rows, sv0, root, entry, salt=0):
+def run_chain(ctx, beh, rows, sv0, root, entry, salt=0, sigprefix="chain"):
     """-> number of transitions compared; entry: "sample" | "warmup" (stateful interface only)"""
     from .zoo import quiet
     cfg = beh["cfg"]
@@ -31,7 +31,7 @@ def run_chain(ctx, beh, rows, sv0, root, entry, salt=0):
     if items is None:
         return 0
     n = len(items)
-    base = "%s/via=%s" % (R._base("chain", cfg, "user"), entry)
+    base = "%s/via=%s" % (R._base(sigprefix, cfg, "user"), entry)
     case = {"kind": "chain", "cfg": cfg, "prog": beh["prog"], "rows": rows, "sv0": sv0, "root": root, "entry": entry, "salt": salt}
     drv = R.driver(cfg, rows, sv0, "user")
     try:
